@@ -204,24 +204,44 @@ def run(ck, ctx):
 
     # ---------------------------------------------------------------- R17.4 stage boundary (decorator shape)
     def r174():
-        STORE_F = "nss_result_store.<locals>.decorator_store.<locals>.store_f"
-        calls = CG.calls(STORE_F)
-        ck.floor("R17.4", len(calls), 7, "storing-wrapper invocations")
-        for fi, site, loc, v, pc in calls:
-            vals = loc.get("values")
-            ck.ob("R17.4", f"wrapper at {site[0]}:{site[1]} returns the stage's values unchanged", vals is not None and
-                  (v is vals or g.same(I.snapshot(v, st), I.snapshot(vals, st))), v, "store_f", "")
-            from .c14 import stored_all
-            stored_all(ck, CG, "R17.4", fi, site, loc, v, pc)
+        ws = CG.store_wrappers()
+        ck.floor("R17.4", len(ws), 7, "storing-wrapper invocations")
+        from .c14 import stored_all
+        for w in ws:
+            site = w["site"]
+            v = w["value"]
+            same = any(sv is not None and (v is sv or g.same(I.snapshot(v, st), I.snapshot(sv, st)))
+                       for _sf, sv in w["stages"])
+            if not same and v is not None and v.op == "Phi":
+                # a mode-dispatched stage: the wrapper's value merges the alternatives' values
+                leaves_ = []
+
+                def rec_(n_):
+                    if n_.op == "Phi":
+                        rec_(n_.args[1])
+                        rec_(n_.args[2])
+                    else:
+                        leaves_.append(n_)
+                rec_(I.snapshot(v, st))
+                svs = [I.snapshot(sv, st) for _sf, sv in w["stages"] if sv is not None]
+                same = bool(leaves_) and all(any(l is s_ or g.same(l, s_) for s_ in svs) for l in leaves_)
+            ck.ob("R17.4", f"wrapper at {site[0]}:{site[1]} returns the stage's values unchanged", same, v,
+                  "nss_result_store (wrapper)", "")
+            stored_all(ck, CG, "R17.4", w)
         # order of effects inside every wrapper invocation: the stage runs once, to completion, before anything
         # is stored
+        wchains = [w["chain"] for w in ws]
         groups = {}
         for idx, e in enumerate(CG.effects):
             ch = e.chain
-            for k, (site, fi) in enumerate(ch):
-                if fi is not None and fi.qualname == STORE_F:
-                    key = tuple((s_, f.qualname if f else None) for s_, f in ch[:k + 1])
-                    nxt = ch[k + 1] if len(ch) > k + 1 else None
+            for wc in wchains:
+                if ch[:len(wc)] == wc:
+                    below = ch[len(wc):]
+                    if any(f is not None and is_writer(f.qualname) for _s, f in below):
+                        nxt = next((s_, f) for s_, f in below if f is not None and is_writer(f.qualname))
+                    else:
+                        nxt = next(((s_, f) for s_, f in below if f is not None and not CG.in_decorators(f)), None)
+                    key = tuple((s_, f.qualname if f else None) for s_, f in wc)
                     groups.setdefault(key, []).append((idx, e, nxt))
                     break
         n_inv = 0
@@ -255,7 +275,7 @@ def run(ck, ctx):
                   f"{len(sites)} stage call site(s), {len(stage)} stage effect(s), {len(store)} store effect(s)",
                   construct="store_f: stage / store order")
         ck.floor("R17.4", n_inv, 6, "storing-wrapper invocations with effects")
-        hs = [e for e in CG.effects if e.kind == "except-handler" and (e.data.get("func") or "").endswith("store_f")]
+        hs = [e for e in CG.effects if e.kind == "except-handler" and any(CG.in_decorators(f) for _s, f in e.chain)]
         ck.ob("R17.4", "the storing wrapper has no exception handler", not hs, hs[0].node if hs else table,
               "nss_result_store.store_f", f"{len(hs)} handler(s)")
     ck.guard(r174, "R17.4")
@@ -269,17 +289,17 @@ def run(ck, ctx):
         wrecs = [(k, rcd) for k, rcd in enumerate(recs) if is_writer(rcd[0].qualname) and len(rcd[1]) >= 2]
         n = 0
         seen = set()
-        for k, (wfi, wchain, w0, w1, _wv) in wrecs:
+        for k, (wfi, wchain, w0, w1, _wv, _wpc) in wrecs:
             caller = wchain[-2][1]
             if caller is None or is_writer(caller.qualname) or caller.qualname == "compute" or \
-                    caller.qualname.endswith("store_f"):
+                    CG.in_decorators(caller):
                 continue            # R17.4 covers the storing wrapper; compute() itself is not a stage
             # the stage invocation that made this writer call: the record whose chain is the writer's minus the last
             stage = next((r_ for r_ in recs[k:] if r_[1] == wchain[:-1]), None)
             if stage is None:
                 continue
             key = (caller.qualname, wchain[-2][0])
-            sfi, schain, s0, s1, sval = stage
+            sfi, schain, s0, s1, sval, _spc = stage
             n += 1
             # nodes of the stage's own computation created after the writer returned
             late = []
